@@ -783,6 +783,47 @@ M("C16", "benign-getitem-temporaries", "_collections.py", "        val = self._c
   "        lowered = key.lower()\n        stored = self._container[lowered]\n        values = stored[1:]\n        sep = \", \"\n        return sep.join(values)\n\n    def __delitem__", rule=None, benign=True)
 M("C16", "benign-iteritems-local-spelling", "_collections.py", "            for val in vals[1:]:\n                yield vals[0], val", "            spelling = vals[0]\n            rest = vals[1:]\n            for val in rest:\n                yield spelling, val", rule=None, benign=True)
 S("C03", "generator-exit-is-clean", "C01-R6")
+# round 3 (two per property)
+S("C01", "socket-setup-helper-leaks-on-failure", "C01-R12")
+S("C01", "drain-conn-early-return-when-consumed", "C01-R7")
+S("C02", "release-closes-after-put", "C01-R4")
+S("C02", "close-spends-finalizer", "C02-R4")
+S("C03", "dropped-conn-swapped-for-unprobed-idle", "C01-R1g")
+S("C03", "release-unread-chunked-truthiness", "C03-R8")
+S("C04", "httpexception-not-wrapped-as-protocolerror", "C04-R13")
+S("C04", "jitter-after-backoff-max-clamp", "C04-R4")
+S("C05", "retry-resend-drops-redirect-flag", "C05-R3")
+S("C05", "303-rewrite-skipped-for-get-head", "C05-R4")
+S("C06", "location-resolved-after-origin-check", "C06-R1")
+S("C06", "frozenset-removal-set-not-lowered", "C06-R2")
+S("C07", "default-certs-with-ca-cert-data", "C07-R11")
+S("C07", "dnsname-san-satisfies-ip-host", "C08-R4")
+S("C08", "wildcard-pattern-cache-by-dn", "C08-R1")
+S("C08", "unusable-san-skipped-enables-cn", "C08-R4")
+S("C09", "proxy-asserts-applied-to-origin-in-tunnel", "C09-R5")
+S("C09", "set-tunnel-strips-brackets", "C09-R7")
+S("C10", "header-keys-not-to-str", "C10-R5")
+S("C10", "encode-target-partition-query-before-fragment", "C10-R2")
+S("C11", "chunk-size-from-str-length", "C11-R2")
+S("C11", "position-not-recorded-when-total-none", "C11-R3")
+S("C12", "empty-decoded-not-queued", "C12-R10")
+S("C12", "accounting-before-last-piece-test", "C13-R1")
+S("C13", "release-unread-chunked-truthiness", "C03-R8")
+S("C13", "reset-treated-as-eof-for-unframed", "C01-R6")
+S("C14", "percent-escape-class-unicode-digits", "C14-R8")
+S("C14", "userinfo-split-first-at", "C14-R3")
+S("C15", "sni-keeps-trailing-dot-in-tunnel", "C15-R3")
+S("C15", "redial-relative-name-on-gaierror", "C15-R3")
+S("C16", "setitem-overwrites-in-place-keeps-spelling", "C16-R5")
+S("C16", "combine-joins-with-filter-none", "C16-R6")
+S("C17", "lookup-before-lock", "C17-R1")
+S("C17", "clear-disposes-under-lock", "C17-R2")
+S("C18", "merge-returns-live-defaults", "C18-R3")
+S("C18", "context-remerges-defaults", "C18-R2")
+S("C19", "read-timeout-unclamped-branch", "C19-R3")
+S("C19", "read-budget-computed-before-request", "C19-R4")
+S("C20", "requestfield-keeps-callers-headers", "C20-R6")
+S("C20", "iter-fields-dispatch-on-dict", "C20-R7")
 MUTANTS.append(dict(prop="C03", name="fixed:F15-early-release-recycles-unread-body", patch="selftest/patches/f15_fix.diff", reverse=True, rule="C03-R8", benign=False))
 S("C07", "matcher-loses-end-anchor", "C08-R1")
 S("C09", "hostname-check-decided-once", "C07-R3")
